@@ -357,6 +357,8 @@ def run(ctx):
         'only EvalError escapes the evaluation step',
         'cur_frame is tested before use (sibling agreement)',
         'variable layout is taken from qvm.memlayout',
+        'the array reader visits the addresses _exec_arridx computes '
+        '(polynomial domain)',
     ]
     ctx.not_decided = ['agreement of evaluated values with the running '
                        'program (behavioural)']
@@ -369,9 +371,15 @@ def run(ctx):
     frame_guard(ctx)
     shared_layout(ctx)
     const_lookup_order(ctx)
+    from .. import strides
+    strides.check_reader_side(ctx, 'C13',
+                              4 if ctx.tier == 'thorough' else 3)
     return ('Effects and escape analysis over the class-hierarchy call graph '
             'rooted at Cmd.do_print: no machine-state write and no CPU '
             'handler is reachable; explicit raises on that path are compared '
             'with what do_print catches; cur_frame dereferences in QvmEval '
             'must be dominated by a None test; layout helpers come from '
-            'qvm.memlayout. Value agreement is NOT decided.')
+            'qvm.memlayout; the element addresses read by QvmEval.read_array are '
+            'obtained as polynomials in the loop iteration numbers and '
+            'compared with the address polynomial of _exec_arridx. Value '
+            'agreement is NOT decided.')
